@@ -288,3 +288,6 @@ def run(ctx):
                 ig.ev_of(strip_cast(arg["l"])) is not None and ig.ev_of(strip_cast(arg["l"])).ev.get("name") == "bucket_count"
             ctx.ob("C03.R5d", inst, ok2, N.where, "a growth table must be at least twice the bucket count of the full table it follows")
     ctx.floor("C03.R5", n5, 3, "growth functions (CAS on next)")
+
+
+SWEEP = ["concurrent/test_transient_hash_table.cpp"]
